@@ -21,6 +21,7 @@ import (
 	"io"
 	"io/ioutil"
 	"math/rand"
+	"net"
 	"os"
 	"strconv"
 	"sync"
@@ -29,6 +30,7 @@ import (
 	"time"
 
 	"go.etcd.io/etcd/api/v3/etcdserverpb"
+	"google.golang.org/grpc"
 	"google.golang.org/grpc/metadata"
 	"k8s.io/klog/v2"
 
@@ -39,6 +41,7 @@ import (
 	promm "github.com/kubewharf/kubebrain/pkg/metrics/prometheus"
 	"github.com/kubewharf/kubebrain/pkg/server/etcd"
 	"github.com/kubewharf/kubebrain/pkg/server/service"
+	"github.com/kubewharf/kubebrain/pkg/server/service/etcdproxy"
 	"github.com/kubewharf/kubebrain/pkg/server/service/leader"
 	"github.com/kubewharf/kubebrain/pkg/storage"
 	imemkv "github.com/kubewharf/kubebrain/pkg/storage/memkv"
@@ -333,4 +336,81 @@ func TestEtcdWatchStream(t *testing.T) {
 		t.Log("watch stream did not terminate in 5s")
 	}
 	t.Logf("etcd watch stream: %d create requests, %d responses", n, atomic.LoadUint64(&stream.sent))
+}
+
+// switchingElection is a follower's view of the election whose leader address alternates between two live
+// peers (a leadership change every time the proxy's background loop looks).
+type switchingElection struct {
+	leader.LeaderElection
+	addrs [2]string
+	n     int64
+}
+
+func (s *switchingElection) IsLeader() bool { return false }
+func (s *switchingElection) GetLeaderInfo() string {
+	return s.addrs[(atomic.AddInt64(&s.n, 1)/2)%2]
+}
+func (s *switchingElection) GetElectionInfo() (leader.ElectionInfo, error) {
+	return leader.ElectionInfo{LeaderAddress: s.GetLeaderInfo()}, nil
+}
+func (s *switchingElection) Campaign() {}
+
+// TestEtcdProxyLeaderChange: a follower with the etcd proxy on forwards transactions while the proxy's
+// background loop (checkLeaderLoop, once a second) follows a changing leader: request goroutines and the
+// loop share the proxy's client / leader address.
+func TestEtcdProxyLeaderChange(t *testing.T) {
+	m := setup()
+	var addrs [2]string
+	for i := 0; i < 2; i++ {
+		lis, err := net.Listen("tcp", "127.0.0.1:0")
+		if err != nil {
+			t.Fatal(err)
+		}
+		addrs[i] = lis.Addr().String()
+		b := backend.NewBackend(imemkv.NewKvStorage(), backend.Config{Prefix: "/race", Identity: addrs[i]}, m)
+		b.SetCurrentRevision(1000)
+		peers := service.NewPeerService(&leader.Stub{ElectionInfo: leader.ElectionInfo{IsLeader: true, LeaderAddress: addrs[i]}}, m, b, service.Config{})
+		srv := etcd.New(b, m, peers)
+		g := grpc.NewServer()
+		srv.Register(g)
+		go g.Serve(lis)
+		defer g.Stop()
+	}
+	el := &switchingElection{addrs: addrs}
+	proxy := etcdproxy.NewEtcdProxy(el, nil)
+	ctx, cancel := context.WithTimeout(context.Background(), 20*time.Second)
+	defer cancel()
+	stop := make(chan struct{})
+	var forwarded int64
+	var wg sync.WaitGroup
+	for w := 0; w < 4; w++ {
+		wg.Add(1)
+		go func(w int) {
+			defer wg.Done()
+			for i := 0; ; i++ {
+				select {
+				case <-stop:
+					return
+				default:
+				}
+				key := fmt.Sprintf("/race/proxy/k%d-%d", w, i)
+				_, perr := proxy.Txn(ctx, &etcdserverpb.TxnRequest{
+					Compare: []*etcdserverpb.Compare{{Target: etcdserverpb.Compare_MOD, Result: etcdserverpb.Compare_EQUAL, Key: []byte(key),
+						TargetUnion: &etcdserverpb.Compare_ModRevision{ModRevision: 0}}},
+					Success: []*etcdserverpb.RequestOp{{Request: &etcdserverpb.RequestOp_RequestPut{RequestPut: &etcdserverpb.PutRequest{Key: []byte(key), Value: []byte("v")}}}},
+				})
+				if perr == nil {
+					atomic.AddInt64(&forwarded, 1)
+				}
+				time.Sleep(2 * time.Millisecond)
+			}
+		}(w)
+	}
+	time.Sleep(4500 * time.Millisecond) // four rounds of the proxy's one-second loop
+	close(stop)
+	wg.Wait()
+	if atomic.LoadInt64(&forwarded) == 0 {
+		t.Fatalf("no transaction was forwarded: the proxy never had a client")
+	}
+	t.Logf("forwarded %d transactions, leader looked up %d times", atomic.LoadInt64(&forwarded), atomic.LoadInt64(&el.n))
 }
